@@ -1,8 +1,12 @@
+import SygmaModel.Drv.C01
+import SygmaModel.Drv.C06
 import SygmaModel.Drv.C14
 namespace Sygma.Drv
 
 def dispatch (prop op : String) (args : List String) (impl : String) : Option Verdict :=
   match prop with
+  | "C01" => C01.handle op args impl
+  | "C06" => C06.handle op args impl
   | "C14" => C14.handle op args impl
   | _ => none
 
